@@ -142,6 +142,50 @@ ga, gamt = mk("a") gb = mk("b") gc_ = mk("c") setmetatable(ga, gamt) gd = mk("d"
 	{"finaliser-order-many", `keep = {} for i = 1, math.min(N, 200) do keep[i] = setmetatable({}, {__gc = function() emit("gc", i) end}) end
 for i = 1, #keep, 7 do setmetatable(keep[i], getmetatable(keep[i])) end emit("marked", #keep)`},
 	{"finaliser-in-context", `local held = {} for i = 1, 5 do held[i] = setmetatable({}, {__gc = function() emit("gc", i) end}) end setmetatable(held[2], getmetatable(held[2])) emit("marked")`},
+	// frames that are unwound or abandoned (never returned) must let go of what
+	// they referenced in every build: values only they referenced are finalised
+	// after a bounded number of full collections (when exactly is up to Go's
+	// collector, so only "eventually, within 300 collections" is observed; the
+	// waiting loop makes no Lua call, which could recycle a pooled frame)
+	{"unwound-frames-release-references", `local done = 0
+local function frame(n) local o = setmetatable({}, {__gc = function() done = done + 1 end}) if n == 0 then error("unwind", 0) end return 1 + frame(n - 1) end
+local function warm(n) if n == 0 then return 0 end return 1 + warm(n - 1) end
+emit("warm", warm(20))
+local depth = math.min(N // 10, 100)
+local ok, e = pcall(frame, depth)
+local tries = 0
+while done < depth + 1 and tries < 300 do hostgc() tries = tries + 1 end
+emit("unwound", ok, e, done == depth + 1)`},
+	{"closed-coroutine-releases-references", `local done = 0
+local function frame(n) local o = setmetatable({}, {__gc = function() done = done + 1 end}) if n == 0 then coroutine.yield("deep") return 0 end return 1 + frame(n - 1) end
+local function warm(n) if n == 0 then return 0 end return 1 + warm(n - 1) end
+emit("warm", warm(20))
+local depth = math.min(N // 10, 100)
+local co = coroutine.create(frame)
+local ok, v = coroutine.resume(co, depth)
+local closed = coroutine.close(co)
+co = nil
+local tries = 0
+while done < depth + 1 and tries < 300 do hostgc() tries = tries + 1 end
+emit("closed", ok, v, closed, done == depth + 1)`},
+	{"failed-coroutine-releases-references", `local done = 0
+local function frame(n) local o = setmetatable({}, {__gc = function() done = done + 1 end}) if n == 0 then error("inside", 0) end return 1 + frame(n - 1) end
+local function warm(n) if n == 0 then return 0 end return 1 + warm(n - 1) end
+emit("warm", warm(20))
+local depth = math.min(N // 10, 100)
+local co = coroutine.create(frame)
+local ok, v = coroutine.resume(co, depth)
+co = nil
+local tries = 0
+while done < depth + 1 and tries < 300 do hostgc() tries = tries + 1 end
+emit("failed", ok, v, done == depth + 1)`},
+	{"returned-frames-release-references", `local done = 0
+local function frame(n) local o = setmetatable({}, {__gc = function() done = done + 1 end}) if n == 0 then return 0 end return 1 + frame(n - 1) end
+local depth = math.min(N // 10, 100)
+local r = frame(depth)
+local tries = 0
+while done < depth + 1 and tries < 300 do hostgc() tries = tries + 1 end
+emit("returned", r, done == depth + 1)`},
 	{"coroutine-pipeline", `local function gen(n) return coroutine.wrap(function() for i = 1, n do coroutine.yield(i) end end) end
 local function filter(p, g) return coroutine.wrap(function() for v in g do if p(v) then coroutine.yield(v) end end end) end
 local s = 0 for v in filter(function(x) return x % 3 == 0 end, filter(function(x) return x % 2 == 0 end, gen(N))) do s = s + v end emit("pipeline", s)`},
@@ -176,7 +220,7 @@ emit("outside", ctx.status, ctx.used.memory, ctx.used.cpu)`
 func TestC14(t *testing.T) {
 	rec := ev.New("C14")
 	defer Finish(t, rec)
-	rec.Rule("one corpus per run: rapid-generated MiniLua programs (general profile, no use of the runtime.* quota library, which the noquotas build lacks) plus pool-stressing templates (deep and tail recursion, mutual tail calls, error unwinding through many frames caught and retried, abandoned coroutines then collection, closures outliving frames, re-entrant Go->Lua calls from sort/gsub callbacks, > 10 register-set sizes, continuation-pool overflow, varargs through frames, to-be-closed variables under errors, coroutine pipelines) at several sizes; every program is run by six separately built runner binaries (tags: default, noregpool, nocontpool, noregpool+nocontpool, noquotas, safepool). Oracle: the canonical trace (events, results, error value) must be byte-equal across all builds, and the default build's trace of generated programs must be the reference interpreter's. Non-trivial: the program makes calls (>= 1 function defined) and ends without being discarded; templates always; distinct by program text + arguments.")
+	rec.Rule("one corpus per run: rapid-generated MiniLua programs (general profile, no use of the runtime.* quota library, which the noquotas build lacks) plus pool-stressing templates (deep and tail recursion, mutual tail calls, error unwinding through many frames caught and retried, abandoned coroutines then collection, closures outliving frames, re-entrant Go->Lua calls from sort/gsub callbacks, > 10 register-set sizes, continuation-pool overflow, varargs through frames, to-be-closed variables under errors, coroutine pipelines, and frames that are unwound by an error / abandoned in a closed or failed coroutine / returned normally, each of which must let go of what it referenced: values only they referenced are finalised within 300 full collections forced through a host function) at several sizes; every program is run by six separately built runner binaries (tags: default, noregpool, nocontpool, noregpool+nocontpool, noquotas, safepool). Oracle: the canonical trace (events, results, error value) must be byte-equal across all builds, and the default build's trace of generated programs must be the reference interpreter's. Non-trivial: the program makes calls (>= 1 function defined) and ends without being discarded; templates always; distinct by program text + arguments.")
 	rec.Assume("the runner binaries are built from /repo's working tree with `go build -tags ...`; a build failure of a tag set is reported as inconclusive (exit 2), not as a violation")
 
 	scratch := os.Getenv("VERIF_SCRATCH")
@@ -311,7 +355,7 @@ func TestC14(t *testing.T) {
 
 	// generated programs
 	prof := luagen.General
-	RunRapid(rec, "C14/programs", rec.Pick(250, 6000), 0, func(t *rapid.T) {
+	RunRapid(rec, "C14/programs", rec.Pick(250, 2000), 0, func(t *rapid.T) {
 		prog := luagen.Generate(t, prof)
 		specs := progcheck.ArgSpecs(prog.Args)
 		src, lines := mlua.Render(prog.Block, nil)
